@@ -74,10 +74,9 @@ def del_cpca_model(mpca):
 
 
 lsci.CPCA.argtypes = [ctypes.POINTER(tns.TENSOR),
+                     ctypes.c_int,
                      ctypes.c_size_t,
-                     ctypes.c_size_t,
-                     ctypes.POINTER(CPCAMODEL),
-                     ctypes.POINTER(ctypes.c_int)]
+                     ctypes.POINTER(CPCAMODEL)]
 lsci.CPCA.restype = None
 
 
@@ -85,8 +84,7 @@ def cpca_algorithm(t_input, scaling, npc, mpca):
     """
     CPCA: Calculate the CPCA model for a matrix m using the NIPALS algorithm
     """
-    ssignal = ctypes.c_int(0)
-    lsci.CPCA(t_input, scaling, npc, mpca, ssignal)
+    lsci.CPCA(t_input, scaling, npc, mpca)
 
 
 lsci.CPCAScorePredictor.argtypes = [ctypes.POINTER(tns.TENSOR),
